@@ -141,12 +141,17 @@ def string_to_number(text: str) -> Union[int, float]:
         return 0
     if _STR_RADIX.match(s):
         n = int(s[2:], {"x": 16, "o": 8, "b": 2}[s[1].lower()])
-        return n if n <= 9007199254740992 else float(n)
+        if n <= 9007199254740992:
+            return n
+        try:
+            return float(n)
+        except OverflowError:
+            return float("inf")
     if not _STR_DECIMAL.match(s):
         return float("nan")
     if s.endswith("Infinity"):
         return float("-inf") if s[0] == "-" else float("inf")
-    if s.lstrip("+-").isdigit():
+    if s.lstrip("+-").isdigit() and len(s) <= 400:
         n = int(s)
         if n == 0 and s[0] == "-":
             return -0.0
